@@ -157,7 +157,7 @@ def encoder_table(ctx, facts_list):
             problems.append('encoder arm %s has %d result definitions' % (vname, len(rds)))
             continue
         val = rds[0][2]
-        terms_by_case[vname] = (val, ctx.site(b, rds[0][0], rds[0][1]))
+        terms_by_case[vname] = (val, ctx.site(b, rds[0][0], rds[0][1]), b, rds[0][0])
         sh = cbor_shape(facts_list, val)
         if sh is None:
             problems.append('cannot determine CBOR shape of encoder arm %s: %s' % (vname, fmt(val)))
@@ -261,14 +261,13 @@ def check_node_reader(ctx, inst, dec=None):
         good = False
         if a is not None:
             s = m_call(unwrap_try(a[0]), name='from_untagged_cbor')
-            rest = unwrap_try(a[1])
-            col = m_call(rest, name='collect', trait='Iterator')
-            if s is not None and col is not None:
-                ix = m_call(s[0], name='index')
-                mp = m_call(col[0], name='map', trait='Iterator')
-                if ix is not None and const_int(ix[1]) == 0 and mp is not None and mp[1][0] == 'fnref' and mp[1][1].endswith('from_untagged_cbor'):
-                    src = elem_source(mp[0])
-                    ix2 = m_call(src, name='index')
+            # the assertion vector in sequence normal form: exactly one part, decode(e) for each e of elements[1..]
+            parts = seq_norm(a[1], b, bi)
+            if s is not None and parts is not None and len(parts) == 1 and parts[0][0] == 'each':
+                ix = m_index(s[0])
+                d = m_call(parts[0][1], name='from_untagged_cbor')
+                if ix is not None and const_int(ix[1]) == 0 and d is not None and d[0][0] == 'elem':
+                    ix2 = m_index(d[0][1])
                     if ix2 is not None and same(ix2[0], ix[0]) and ix2[1][0] == 'agg' and ix2[1][1].endswith('RangeFrom') and const_int(ix2[1][3][0]) == 1:
                         good = True
         if good:
